@@ -90,8 +90,8 @@ def pauli_index_to_str(index:int|np.ndarray, num_qubit:int):
         pauli_str (str|np.ndarray): Pauli string, e.g. 'XIZYX'
     '''
 
-    if isinstance(index, int):
-        ret = _pauli_index_int_to_str(index, num_qubit)
+    if isinstance(index, (int,np.integer)): #np.integer: an element of the array returned by the batched pauli_*_to_index
+        ret = _pauli_index_int_to_str(int(index), num_qubit)
     else:
         assert isinstance(index, np.ndarray)
         shape = index.shape
